@@ -265,7 +265,9 @@ def run(ctx):
     ctx.cov["correspondence"] = {"distribution": stats, "streams_compared": ["creation/transition trace + process events + quiescent dumps -> Lean monitor hierMonitor", "stepped runs vs Op model (incl. process events)"]}
     ctx.cov["rule"] = ("parallel shapes (>=2 branches with interrupts, steps mixing branches and act chains, catches), every action kind applied in one branch while siblings are open, "
                        "duplicate actions, keep_processes on and off; non-trivial = >=2 interrupts open at once at some quiescent point; distinct by (model, ops)")
-    ctx.cov["clauses_proved"] = ["event table: complete xor error, exactly for terminal states (K1)", "a task without catch revive enters a terminal state at most once (all legal traces)",
+    ctx.cov["clauses_proved"] = ["the monitor is sound for every stream: an accepted stream has at most one start and one terminal event (the terminal one after the start), nothing but hook acts open "
+                                 "beneath a task at its `completed` write, the process state equal to the root's at every quiescent point, nothing open behind a `complete` event (K3)",
+                                 "event table: complete xor error, exactly for terminal states (K1)", "a task without catch revive enters a terminal state at most once (all legal traces)",
                                  "Ref: completed iff everything beneath is done; finished => nothing open"]
     ctx.cov["clauses_not_proved"] = ["hierarchical completion of the engine under parallel composition (monitor on engine traces)"]
 
